@@ -424,7 +424,7 @@ func cmdRun(args []string) int {
 			found := false
 			tried := 0
 			for _, c := range cands {
-				if tried >= 8 {
+				if tried >= 12 {
 					break
 				}
 				tried++
@@ -457,6 +457,11 @@ func cmdRun(args []string) int {
 					fmt.Fprintf(os.Stderr, "  violated: %s (%s) harness=%s shape=%v msg=%s\n", c.AssertID, c.Kind, o.spec.Harness, o.res.Shape, c.Msg)
 					violations++
 					break
+				}
+				if d := os.Getenv("VERIF_KEEP_SPURIOUS"); d != "" {
+					data, _ := json.MarshalIndent(rf, "", " ")
+					os.MkdirAll(d, 0o755)
+					os.WriteFile(filepath.Join(d, fmt.Sprintf("%s-%s-%d.json", *prop, c.AssertID, replayed)), data, 0o644)
 				}
 				if os.Getenv("VERIF_DEBUG") != "" {
 					fmt.Fprintf(os.Stderr, "  spurious candidate %s: native failed=%v panicked=%v done=%v\n%s\n", c.AssertID, nres.Failed, nres.Panicked, nres.Done, tail(nres.Output, 20))
